@@ -615,6 +615,11 @@ pub fn dump_tail(sim: &Sim) -> String {
     let mut out = String::from("\n");
     let skip = b.trace.len().saturating_sub(n);
     let from: Option<i64> = std::env::var("PBVERIF_DUMP_FROM").ok().and_then(|s| s.parse().ok());
+    let from = match from {
+        // negative: start 12 records before the first overlap after |from| us
+        Some(f) if f < 0 => b.trace.iter().position(|r| r.overlapped && r.start_ns >= -f * 1000).and_then(|p| b.trace.get(p.saturating_sub(12))).map(|r| r.start_ns / 1000),
+        x => x,
+    };
     let recs: Vec<&TxRecord> = match from {
         Some(f) => b.trace.iter().filter(|r| r.start_ns >= f * 1000).take(n).collect(),
         None => b.trace[skip..].iter().collect(),
